@@ -73,7 +73,12 @@ def reps_collection(series, rng):
     """series: list of lists of floats (1-D)"""
     out = {"list_nd": [np.array(s, dtype=float) for s in series], "tuple_nd": tuple(np.array(s, dtype=float) for s in series),
            "list_array": [array.array("d", s) for s in series], "list_list": [list(map(float, s)) for s in series],
-           "list_strided": [reps_1d(s, rng)["strided"] for s in series]}
+           "list_strided": [reps_1d(s, rng)["strided"] for s in series],
+           # other element types holding the same numbers (halves are exact in float32)
+           "list_f32": [np.array(s, dtype=np.float32) for s in series],
+           "list_array_f": [array.array("f", s) for s in series]}
+    if all(float(v).is_integer() for s in series for v in s):
+        out["list_int"] = [np.array(s, dtype=np.int64) for s in series]
     if len({len(s) for s in series}) == 1:
         m = np.array(series, dtype=float)
         big = np.zeros((2 * m.shape[0], m.shape[1]))
@@ -205,10 +210,12 @@ def run(ctx):
         ns = rng.randint(2, 5)
         equal = rng.random() < 0.5
         L = rng.randint(2, 6)
-        series = [[rng.randint(-3, 3) + rng.choice([0.0, 0.5]) for _ in range(L if equal else rng.randint(1, 6))]
+        half = rng.choice([0.5, 0.5, 0.0])
+        series = [[rng.randint(-3, 3) + rng.choice([0.0, half]) for _ in range(L if equal else rng.randint(1, 6))]
                   for _ in range(ns)]
         cols = reps_collection(series, rng)
         cols["container"] = SeriesContainer.wrap([np.array(s, dtype=float) for s in series])
+        cols["container_nested"] = SeriesContainer(SeriesContainer([np.array(s, dtype=float) for s in series]))
         colargs = {k: (v,) for k, v in cols.items()}
         opts = dict(kwn)
         for label, fn, c in (
@@ -255,6 +262,20 @@ def run(ctx):
             evaluate("dtw_barycenter.dba_loop(ndim, use_c=%s)" % eng_c,
                      lambda s, cc: dtw_barycenter.dba_loop(s, cc, max_it=2, use_c=eng_c), margs, eng_c,
                      canonical="list_nd")
+        # multivariate distance matrices over the same layouts, plus containers of containers
+        nforms = {k_: (v_,) for k_, v_ in forms.items()}
+        nforms["container"] = (SeriesContainer(np.array(pts)),)
+        nforms["container_nested"] = (SeriesContainer(SeriesContainer(np.array(pts))),)
+        nforms["list_f32"] = ([np.array(p_, dtype=np.float32) for p_ in pts],)
+        nforms["list_int"] = ([np.array(p_, dtype=np.int64) for p_ in pts],)
+        for eng_c in (False, True):
+            evaluate("dtw_ndim.distance_matrix(use_c=%s)" % eng_c,
+                     lambda s: dtw_ndim.distance_matrix(s, use_c=eng_c, compact=True), nforms, eng_c, canonical="list_nd")
+        if it % 6 == 0:
+            mpforms = {k_: nforms[k_] for k_ in ("list_nd", "list_F", "list_T", "3d_F")}
+            evaluate("dtw_ndim.distance_matrix(use_c, parallel, use_mp)",
+                     lambda s: dtw_ndim.distance_matrix(s, use_c=True, parallel=True, use_mp=True, compact=True), mpforms,
+                     True, canonical="list_nd")
         # subsequence alignment / search with a shared options dictionary
         sq = {k: (r1[k], r2[k]) for k in ("nd", "strided", "reversed", "column", "array", "list")}
         evaluate("subsequence_alignment", lambda a, b: subsequence_alignment(a, b).matching_function(), sq, False)
@@ -330,6 +351,26 @@ def run(ctx):
             res.violations.append({"clause": "interleaving other calls on the same objects does not change a result",
                                    "routine": "LocalConcurrences.kbest_matches with wp_slice(positivize=True) in between",
                                    "series": sv.tolist(), "without": a_, "with": b_})
+        # a restarted search (restart=True is the default) repeats the first search, in every variant of the matrix
+        for lc_c, lc_w in ((False, None), (False, 2), (True, None), (True, 2)):
+            res.evaluations += 1
+            res.hit("lc_repeat_restart")
+            try:
+                lc = LocalConcurrences(sv, None, gamma=1.0, tau=0.5, delta=-1.0, delta_factor=0.5, penalty=0.0,
+                                       use_c=lc_c, window=lc_w)
+                lc.align()
+                runs_ = [[[tuple(map(int, q)) for q in m.path] for m in lc.kbest_matches(k=2, minlen=1)] for _ in range(2)]
+            except BaseException as ex:
+                if isinstance(ex, (KeyboardInterrupt, SystemExit)):
+                    raise
+                res.violations.append({"clause": "LocalConcurrences repeated search raised", "use_c": lc_c, "window": lc_w,
+                                       "got": type(ex).__name__ + ":" + str(ex)[:100]})
+                continue
+            if runs_[0] != runs_[1]:
+                res.violations.append({"clause": "repeating a call on the same object returns the same result",
+                                       "routine": "LocalConcurrences.kbest_matches(k=2) twice (restart=True)",
+                                       "use_c": lc_c, "window": lc_w, "series": sv.tolist(), "first": runs_[0],
+                                       "second": runs_[1]})
         res.sample({"s1": v1, "s2": v2, "kw": kw, "series": series}, limit=2)
     # ---- contiguity guard vs the Lean view model on random strided views
     ops, views = [], []
